@@ -329,7 +329,11 @@ class SliceSelector(JSONPathSelector):
 
     def resolve(self, matches: Iterable[JSONPathMatch]) -> Iterable[JSONPathMatch]:
         for match in matches:
-            if not isinstance(match.obj, Sequence) or self.slice.step == 0:
+            if (
+                not isinstance(match.obj, Sequence)
+                or isinstance(match.obj, str)
+                or self.slice.step == 0
+            ):
                 continue
 
             for norm_index, obj in zip(  # noqa: B905
@@ -351,7 +355,11 @@ class SliceSelector(JSONPathSelector):
         self, matches: AsyncIterable[JSONPathMatch]
     ) -> AsyncIterable[JSONPathMatch]:
         async for match in matches:
-            if not isinstance(match.obj, Sequence) or self.slice.step == 0:
+            if (
+                not isinstance(match.obj, Sequence)
+                or isinstance(match.obj, str)
+                or self.slice.step == 0
+            ):
                 continue
 
             for norm_index, obj in zip(  # noqa: B905
@@ -423,6 +431,8 @@ class WildSelector(JSONPathSelector):
         self, matches: AsyncIterable[JSONPathMatch]
     ) -> AsyncIterable[JSONPathMatch]:
         async for match in matches:
+            if isinstance(match.obj, str):
+                continue
             if isinstance(match.obj, Mapping):
                 for key, val in match.obj.items():
                     _match = self.env.match_class(
